@@ -38,6 +38,7 @@ Inductive cmd :=
 | CEraseChars (n : nat)
 | CImage (i : N) (r c : nat)
 | CImageErase (i : N) (p : option (nat * nat))
+| CSync (on : bool)     (* DECSET/DECRST 2026 synchronized output around a frame: no effect on what is displayed *)
 | COther.
 
 Definition placement := (N * nat * nat)%type.
@@ -156,6 +157,7 @@ Definition exec (o : oracle) (s : screen) (c : cmd) : screen :=
       set_places s (filter (fun p => negb (placement_eqb p (i, r, c))) (places s))
   | CImageErase i None =>
       set_places s (filter (fun p => negb (N.eqb (fst (fst p)) i)) (places s))
+  | CSync _ => s
   | COther => set_err s
   end.
 
